@@ -373,3 +373,33 @@ fn c15_vec_u8_u8_from_array_over_lmax() {
     let r = FlatVec::<u8, u8>::new_in_place(&mut back[..300], flatty::vec::FromArray([x; 256])).map(|v| v.len());
     assert!(matches!(r, Err(ref e) if e.kind == ErrorKind::InsufficientSize), "C15,C03,C11: content that does not fit is not refused with InsufficientSize");
 }
+
+/// C18 / C03: FlexVec FromIterator whose items fill the buffer EXACTLY, followed by one item too many: the assignment fails,
+/// and what is left behind is a valid vector of the items that fit
+#[kani::proof]
+#[kani::unwind(10)]
+fn c18_flex_from_iterator_exact_fill() {
+    type Item = FlatVec<u8, u8>;
+    type V = FlexVec<Item, u8>;
+    // BOUNDED: one buffer (8 bytes, prior contents 0xAA), n in {2, 3}
+    let mut back = [0xAAu8; 12];
+    let three: bool = kani::any();
+    let n: usize = if three { 3 } else { 2 };
+    let x: u8 = kani::any();
+    // every item takes 1 (offset slot) + 1 (length) + 2 (data) = 4 bytes: exactly two fit into 8 bytes
+    let r = V::new_in_place(&mut back[..8], flatty::flex::FromIterator::new((0..n).map(|_| flatty::vec::FromArray([x; 2])))).map(|v| v.len());
+    if n <= 2 {
+        assert!(r == Ok(n), "C03: read-back differs from what was emplaced");
+    } else {
+        assert!(matches!(r, Err(ref e) if e.kind == ErrorKind::InsufficientSize), "C15: content that does not fit is not refused with InsufficientSize");
+    }
+    let b = &back[..8];
+    assert!(V::validate(b).is_ok(), "C18,C03: the bytes left behind do not validate");
+    let v = V::from_bytes(b).unwrap();
+    assert!(v.len() == 2 && v.size() <= 8, "C18: the value left behind cannot be inspected / measured");
+    let mut it = v.iter();
+    let y = it.next().unwrap();
+    assert!(y.len() == 2 && y[0] == x && y[1] == x, "C18,C03: item contents differ from what was emplaced");
+    let y = it.next().unwrap();
+    assert!(y.len() == 2 && y[0] == x && y[1] == x, "C18,C03: item contents differ from what was emplaced");
+}
